@@ -13,7 +13,7 @@ STATEMENT = ("for every date t in [1900, 2300): dt(t), dt of its date, of its (y
              "ymd() drops the time of day; an unambiguous (day > 12) string in the other dialect raises ValueError; dt(y,m,d) with month or "
              "day out of range is the first day of the normalised month plus d-1 days")
 LEAN_FILES = ['Basic', 'Greg', 'GenTypes', 'Bump', 'DateParse', 'NpDate', 'DateParseDriver', 'PygGen', 'Sweep', 'GregLemmas', 'GregPeriod', 'BumpLemmas',
-              'MonthLemmas', 'TokenLemmas', 'DateLemmas', 'DateStrLemmas', 'DateTextLemmas', 'NpDateLemmas', 'MonthNameLemmas', 'MonthNameStrLemmas', 'SqueezeLemmas', 'AmbiguityLemmas', 'SlashesLemmas', 'DialectLemmas', 'C04']
+              'MonthLemmas', 'TokenLemmas', 'DateLemmas', 'DateStrLemmas', 'DateTextLemmas', 'NpDateLemmas', 'MonthNameLemmas', 'MonthNameStrLemmas', 'SqueezeLemmas', 'AmbiguityLemmas', 'SlashesLemmas', 'DialectLemmas', 'IsoAnyLemmas', 'C04']
 GENERATED = ['PygGen.Ym', 'PygGen.Num2dt', 'PygGen.Tables', 'PygGen.Np2dt', 'PygGen.DuMonths']
 RULE = ('distinct protocol lines (one spelling of one instant, or one (y, m, d) overflow triple, or one translator-grid integer) on which '
         'dt()/ymd()/dt2str() returned a value')
